@@ -36,7 +36,7 @@ type TLCRun struct {
 	NoDeadlock bool              // -deadlock (disable deadlock checking) in addition to the cfg
 	OnLine     func(tag, json string)
 	OnRaw      func(line string) // every other output line
-	Tags       []string // tags of PrintT lines to extract, e.g. "CASE"
+	Tags       []string          // tags of PrintT lines to extract, e.g. "CASE"
 }
 
 // TLCResult summarises a finished run.
